@@ -2,61 +2,73 @@ package agreement
 
 import (
 	"fmt"
+	"os"
+	"strings"
 	"testing"
-	"time"
 )
 
+// dev aid: print a lock-step execution of a configuration; C01DEV_DEV="idx:kind,..." picks an
+// alternative event kind at the given decision indexes, default = first enabled event.
 func TestVerif_C01dev(t *testing.T) {
-	env := eagrGetEnv(3, 2)
-	cfg := &eagrCfg{env: env, nNodes: 3, atomicVerify: true, atomicLoop: true, flightSet: true, maxRound: 1, maxPeriod: 1}
-	s := eagrNewSys(cfg)
-	out := &eagrOut{}
-	s.boot(out)
-	// deliver everything FIFO for a while
-	for i := 0; i < 12 && len(s.flight) > 0; i++ {
-		f := s.flight[0]
-		s.apply(eagrEv{K: "deliver", N: f.dst, M: f.m.ID()}, out)
-	}
-	for j := range s.nodes {
-		s.apply(eagrEv{K: "timeout", N: j}, out)
-	}
-	for i := 0; i < 6 && len(s.flight) > 0; i++ {
-		f := s.flight[0]
-		s.apply(eagrEv{K: "deliver", N: f.dst, M: f.m.ID()}, out)
-	}
-	n := s.nodes[0]
-	fmt.Printf("player %+v\n", n.p.Round)
-	fmt.Printf("rr Msgsize=%d player Msgsize=%d\n", n.rr.Msgsize(), n.p.Msgsize())
-	t0 := time.Now()
-	var raw []byte
-	for i := 0; i < 200; i++ {
-		raw = encode(eagrClock{}, n.rr, n.p, nil, false)
-	}
-	fmt.Printf("encode: %v per call, %d bytes\n", time.Since(t0)/200, len(raw))
-	t0 = time.Now()
-	buf := make([]byte, 0, 1<<20)
-	for i := 0; i < 200; i++ {
-		buf = n.stateBytes(buf[:0])
-	}
-	fmt.Printf("stateBytes: %v per call, %d bytes\n", time.Since(t0)/200, len(buf))
-	t0 = time.Now()
-	for i := 0; i < 200; i++ {
-		_ = n.clone()
-	}
-	fmt.Printf("clone: %v per call\n", time.Since(t0)/200)
-	t0 = time.Now()
-	for i := 0; i < 200; i++ {
-		_, _, _, _, err := decode(raw, eagrClock{}, serviceLogger{env.log}, false)
-		if err != nil {
-			t.Fatal(err)
+	cfgs := eagrSafetyConfigs(1)
+	b := cfgs[0]
+	if n := os.Getenv("C01DEV_CFG"); n != "" {
+		for _, c := range cfgs {
+			if c.name == n {
+				b = c
+			}
 		}
 	}
-	fmt.Printf("decode: %v per call\n", time.Since(t0)/200)
-	t0 = time.Now()
-	for i := 0; i < 200; i++ {
-		n.keyOK = false
-		_ = s.key()
+	devAt := map[int]string{}
+	for _, part := range strings.Split(os.Getenv("C01DEV_DEV"), ",") {
+		var i int
+		var k string
+		if n, _ := fmt.Sscanf(part, "%d:%s", &i, &k); n == 2 {
+			devAt[i] = k
+		}
 	}
-	fmt.Printf("sys.key(1 node recomputed): %v per call\n", time.Since(t0)/200)
-	fmt.Printf("commits so far %d, flight %d\n", len(out.commits), len(s.flight))
+	verbose := os.Getenv("C01DEV_V") != ""
+	s := eagrNewSys(b.cfg)
+	out := &eagrOut{trace: true}
+	s.boot(out)
+	s.fixBarrier()
+	for i := 0; i < 200; i++ {
+		evs := b.enabled(s)
+		if len(evs) == 0 {
+			break
+		}
+		e := evs[0]
+		if k, ok := devAt[i]; ok {
+			found := false
+			for _, x := range evs {
+				if x.K == k {
+					e = x
+					found = true
+					break
+				}
+			}
+			if !found {
+				fmt.Printf("    (deviation %s not enabled at %d)\n", k, i)
+			}
+		}
+		out = &eagrOut{trace: true}
+		if err := s.apply(e, out); err != nil {
+			t.Fatal(err)
+		}
+		fmt.Printf("%3d %v   [enabled %d] devs=%v\n", i, e, len(evs), s.devs)
+		if verbose {
+			for _, sub := range out.subs {
+				fmt.Printf("        n%d %-70s -> %v\n", sub.node, sub.event, sub.acts)
+			}
+		}
+		if out.panicMsg != "" {
+			fmt.Printf("        PANIC %s\n", out.panicMsg)
+		}
+		for _, c := range out.commits {
+			fmt.Printf("        COMMIT n%d r%d p%d %s\n", c.node, c.act.Certificate.Round, c.period, eagrPV(c.act.Certificate.Proposal))
+		}
+	}
+	for _, n := range s.nodes {
+		fmt.Printf("node %d: round %d period %d step %d passive %v\n", n.id, n.p.Round, n.p.Period, n.p.Step, n.passive)
+	}
 }
